@@ -30,10 +30,11 @@ Max(a, b) == IF a > b THEN a ELSE b
 (* ---------------------------------------------------------------- atoms *)
 (* A string is a sequence of text atoms (the alphabet of SqlLit):               *)
 (*   q = '   d = "   s = ;   k = " --"   p = )   o = " OR 1=1"                  *)
-(*   u = " UNION SELECT k,v FROM secrets"   x = a   y = b                       *)
+(*   u = " UNION SELECT k,v FROM secrets"   x = a   y = b   b = \ (backslash)   *)
+(*   1 = 1   z = a parenthesised sub-select counting the rows of secrets        *)
 (* the concretiser concatenates the atoms' texts.  Named strings used by the    *)
 (* generator and as row contents:                                               *)
-AllAlpha == {"q", "d", "s", "k", "p", "o", "u", "x", "y"}
+AllAlpha == {"q", "d", "s", "k", "p", "o", "u", "x", "y", "b", "1", "z"}
 Str == [a    |-> <<"x">>,                  \* a
         b    |-> <<"y">>,                  \* b
         qe   |-> <<"x", "q">>,             \* a'
@@ -45,7 +46,11 @@ Str == [a    |-> <<"x">>,                  \* a
         semi |-> <<"x", "s", "y">>,        \* a;b
         dq   |-> <<"x", "d", "y">>,        \* a"b
         q1   |-> <<"q">>,                  \* '
-        cmt  |-> <<"y", "k">>]             \* b --
+        cmt  |-> <<"y", "k">>,             \* b --
+        bqc  |-> <<"b", "q", "p", "o", "k">>,   \* \') OR 1=1 --
+        bdc  |-> <<"b", "d", "p", "o", "k">>]   \* \") OR 1=1 --
+(* strings that are only used behind a sign (+"..." / -"..."): outside the documented grammar *)
+SignStrs == {<<"1">>, <<"1", "o">>, <<"z">>, <<"y", "x">>}  \* 1 | 1 OR 1=1 | (SELECT count(*) FROM secrets) | ba
 StrAtoms == {Str[n] : n \in DOMAIN Str}
 IntAtoms == {-1, 2, 4}
 IsStr(v) == v \in Seq(AllAlpha)
@@ -55,7 +60,8 @@ StrFeat(v) == (IF Len(v) > 0 /\ v[1] = "q" THEN {"qstart"} ELSE {})
               \cup (IF Len(v) > 1 /\ v[Len(v)] = "q" THEN {"qend"} ELSE {})
               \cup (IF \E i \in 2..(Len(v) - 1) : v[i] = "q" THEN {"qmid"} ELSE {})
               \cup (IF "d" \in Range(v) THEN {"dquote"} ELSE {}) \cup (IF "s" \in Range(v) THEN {"semi"} ELSE {})
-              \cup (IF Range(v) \cap {"k", "p", "o", "u"} # {} THEN {"cont"} ELSE {})      \* carries SQL continuation text
+              \cup (IF "b" \in Range(v) THEN {"bslash"} ELSE {})
+              \cup (IF Range(v) \cap {"k", "p", "o", "u", "z"} # {} THEN {"cont"} ELSE {})      \* carries SQL continuation text
 
 Row(i, n) == [id |-> i, name |-> n]
 Table0 == {Row(1, Str.a), Row(2, Str.b), Row(3, Str.qe), Row(4, Str.orc), Row(5, Str.uni), Row(6, Str.qs)}
@@ -66,16 +72,21 @@ NewId  == 7
 (* AND(leaf,leaf) or OR(leaf,leaf)  (uniform records: r is ignored for          *)
 (* "leaf"/"not"; iv/sv carry the integer / string-atom literal)                 *)
 CmpOps  == {"EQ", "LT", "LE", "GT", "GE"}
-IntLeaf == [op : CmpOps, col : {"id"}, iv : IntAtoms, sv : {<<>>}]
-StrLeaf == [op : {"EQ"}, col : {"name"}, iv : {0}, sv : StrAtoms]
+IntLeaf == [op : CmpOps, col : {"id"}, iv : IntAtoms, sv : {<<>>}, sg : {""}]
+StrLeaf == [op : {"EQ"}, col : {"name"}, iv : {0}, sv : StrAtoms, sg : {""}]
 Leaf    == IntLeaf \cup StrLeaf
+(* a sign in front of the operand: "signed numbers" are documented (+2, -2); a sign in front of a quoted *)
+(* string is not - such a comparison can only be refused or be true of no row (see WF)                  *)
+XLeaf   == [op : {"EQ", "LT"}, col : {"id"}, iv : {2, 4}, sv : {<<>>}, sg : {"+", "-"}]
+           \cup [op : {"EQ"}, col : {"name"}, iv : {0}, sv : SignStrs, sg : {"+", "-"}]
 LeafF(x) == [k |-> "leaf", l |-> x, r |-> x]
 NotF(x)  == [k |-> "not", l |-> x, r |-> x]
 BinF(k, x, y) == [k |-> k, l |-> x, r |-> y]
 
 IntCmp(op, x, y) == CASE op = "EQ" -> x = y [] op = "LT" -> x < y [] op = "LE" -> x <= y
                       [] op = "GT" -> x > y [] op = "GE" -> x >= y
-LeafEval(f, r) == IF f.col = "id" THEN IntCmp(f.op, r.id, f.iv) ELSE r.name = f.sv
+LeafEval(f, r) == IF f.col = "id" THEN IntCmp(f.op, r.id, IF f.sg = "-" THEN 0 - f.iv ELSE f.iv)
+                  ELSE f.sg = "" /\ r.name = f.sv
 (* documented meaning: docs/API.md "Filter expressions" *)
 Eval(f, r) == CASE f.k = "leaf" -> LeafEval(f.l, r)
                 [] f.k = "and" -> LeafEval(f.l, r) /\ LeafEval(f.r, r)
@@ -97,6 +108,8 @@ NumStart == {"1", "2", "7"}
 AdvStart == {"stack"}                                 \* 1;DROP TABLE secrets
 GoodKey  == {"name"}
 AdvKey   == {"kq", "kinj"}                            \* na"me | name") SELECT k,v FROM secrets --
+(* text after a complete filter clause (outside the grammar: the request may be refused, or read as the clause) *)
+Trails   == {"close", "or", "orq", "comma", "word"}   \* ) |  OR 1=1 | ) OR ((1=1' | , |  garbage
 
 Num(s) == CASE s = "1" -> 1 [] s = "2" -> 2 [] s = "7" -> 7 [] s = "1000" -> 1000 [] OTHER -> 0
 
@@ -157,10 +170,17 @@ Post(req, before, out) == Failing(req, before, out) = {}
 
 (* domain of the contract: the record describes a request of the bounded space against a table of known rows *)
 WFRow(r) == r.id \in 1..NewId /\ IsStr(r.name)
-WFLeaf(x) == IF x.col = "id" THEN x.op \in CmpOps /\ x.iv \in Int ELSE x.col = "name" /\ x.op = "EQ" /\ IsStr(x.sv)
+WFLeaf(x) == /\ x.sg \in {"", "+", "-"}
+             /\ IF x.col = "id" THEN x.op \in CmpOps /\ x.iv \in Int /\ (x.sg = "" \/ x.iv >= 0)
+                ELSE x.col = "name" /\ x.op = "EQ" /\ IsStr(x.sv)
+(* a signed string has no documented reading; whichever lenient one is taken (the string, or sign+string) *)
+(* must not happen to be a row's content, so that "true of no row" is right under all of them              *)
+SignedOK(x, before) == (x.col = "name" /\ x.sg # "") => \A r \in before : r.name # x.sv /\ r.name # <<x.sg>> \o x.sv
 WF(req, before) == /\ req.op \in Ops
                    /\ \A r \in before : WFRow(r)
-                   /\ \A i \in DOMAIN req.flt : req.flt[i].k \in {"leaf", "not", "and", "or"} /\ WFLeaf(req.flt[i].l) /\ WFLeaf(req.flt[i].r)
+                   /\ \A i \in DOMAIN req.flt : /\ req.flt[i].k \in {"leaf", "not", "and", "or"}
+                                                /\ WFLeaf(req.flt[i].l) /\ WFLeaf(req.flt[i].r)
+                                                /\ SignedOK(req.flt[i].l, before) /\ SignedOK(req.flt[i].r, before)
                    /\ IsStr(req.setv)
 
 (* abstract identity of a case: operation, every failing clause, and the non-plain atom classes the request carries *)
@@ -175,6 +195,8 @@ AdvClasses(req) ==
   \cup (IF req.start \in AdvStart THEN {"start:" \o req.start} ELSE {})
   \cup {"set:" \o f : f \in StrFeat(req.setv)}
   \cup (IF req.key \in AdvKey THEN {"key:" \o req.key} ELSE {})
+  \cup (IF \E i \in DOMAIN req.flt : \E g \in LeafVals(req.flt[i]) : g.sg # "" /\ g.col = "name" THEN {"sign:str"} ELSE {})
+  \cup (IF req.trail # "-" THEN {"trail:" \o req.trail} ELSE {})
 (* harmless spellings only identify a case that carries nothing adversarial *)
 VarClasses(req) ==
   (IF req.tbl \in GoodTbl \ {"plain"} THEN {"tbl:" \o req.tbl} ELSE {})
@@ -182,6 +204,8 @@ VarClasses(req) ==
   \cup (IF req.sort \in GoodSort THEN {"sort:" \o req.sort} ELSE {})
   \cup (IF Paged(req) THEN {"paged"} ELSE {})
   \cup (IF req.cols # <<>> THEN {"cols"} ELSE {})
+  \cup (IF \E i \in DOMAIN req.flt : \E g \in LeafVals(req.flt[i]) : g.sg # "" THEN {"sign:num"} ELSE {})
+  \cup (IF req.qs # "dq" THEN {"qs:" \o req.qs} ELSE {})
 Classes(req) == IF AdvClasses(req) # {} THEN AdvClasses(req) ELSE VarClasses(req)
 Key(req, before, out) == [op |-> req.op, failing |-> Failing(req, before, out), classes |-> Classes(req)]
 =============================================================================
